@@ -113,8 +113,11 @@ func c04table() []c04attr {
 		{path: "S.volumes", class: "keyed", entries: [][3]any{{"/t1", "named:/t1", "./src:/t1:ro"}, {"/t2", "./a:/t2", "named:/t2"}, {"/t3", "/abs:/t3", "./b:/t3"}}},
 		{path: "S.ports", class: "keyed", entries: [][3]any{{"3000", "8000:3000", "8000:3000"}, {"3001", "8001:3001/udp", "8001:3001/udp"}, {"3002", "127.0.0.1:8002:3002", "127.0.0.1:8002:3002"}}},
 		{path: "S.devices", class: "keyed", entries: [][3]any{{"/dev/b", "/dev/a:/dev/b", "/dev/c:/dev/b:r"}, {"/dev/e", "/dev/d:/dev/e", "/dev/f:/dev/e"}}},
-		{path: "S.secrets", class: "keyed", entries: [][3]any{{"sec", "sec", m("source", "sec", "mode", 256)}, {"/x", m("source", "sec", "target", "/x"), m("source", "sec2", "target", "/x")}}},
-		{path: "S.configs", class: "keyed", entries: [][3]any{{"/c1", m("source", "cfg", "target", "/c1"), m("source", "cfg2", "target", "/c1")}, {"/c2", m("source", "cfg", "target", "/c2"), m("source", "cfg", "target", "/c2", "mode", 292)}}},
+		{path: "S.secrets", class: "keyed", entries: [][3]any{{"sec", "sec", m("source", "sec", "mode", 256)}, {"/x", m("source", "sec", "target", "/x"), m("source", "sec2", "target", "/x")},
+			{"/run/secrets/sec2", "sec2", m("source", "sec2", "target", "/run/secrets/sec2", "mode", 256)}}},
+		{path: "S.configs", class: "keyed", entries: [][3]any{{"/c1", m("source", "cfg", "target", "/c1"), m("source", "cfg2", "target", "/c1")}, {"/c2", m("source", "cfg", "target", "/c2"), m("source", "cfg", "target", "/c2", "mode", 292)},
+			// the short form mounts at /<name>: the long form naming that target is the same entry
+			{"/cfg", "cfg", m("source", "cfg", "target", "/cfg", "mode", 292)}}},
 		{path: "S.env_file", class: "keyed", entries: [][3]any{{"./e.env", "./e.env", m("path", "./e.env", "required", false)}, {"./f.env", m("path", "./f.env", "required", false), "./f.env"}}},
 	}
 	return t
